@@ -411,6 +411,41 @@ func init() {
 			in.mapDelete(in.syncMap(a[0]), a[1])
 			return nil
 		},
+		// sync.Pool: a free list shared by everything that runs in the process. Modelled as a LIFO stack per pool
+		// (Put pushes, Get pops or calls New): one legal behaviour of the real pool, and the one under which state
+		// left in a pooled object reaches the next user — which is what order/commutation harnesses look for.
+		"(*sync.Pool).Get": func(in *Interp, fn *ssa.Function, a []Value) Value {
+			p := a[0].(*Ptr)
+			k, _ := concKey(p)
+			if st := in.syncPools[k]; len(st) > 0 {
+				v := st[len(st)-1]
+				in.syncPools[k] = st[:len(st)-1]
+				return v
+			}
+			sv, ok := in.load(p).(*StructV)
+			if !ok {
+				in.fail("sync.Pool value is %T", in.load(p))
+			}
+			for i := 0; i < sv.typ.NumFields(); i++ {
+				if sv.typ.Field(i).Name() == "New" {
+					cl, ok := sv.fields[i].(*Closure)
+					if !ok || cl == nil {
+						return &IfaceV{}
+					}
+					return in.invoke(nil, &callTarget{closure: cl, fn: cl.fn}, nil, nil, nil)
+				}
+			}
+			return &IfaceV{}
+		},
+		"(*sync.Pool).Put": func(in *Interp, fn *ssa.Function, a []Value) Value {
+			p := a[0].(*Ptr)
+			k, _ := concKey(p)
+			if in.syncPools == nil {
+				in.syncPools = map[string][]Value{}
+			}
+			in.syncPools[k] = append(in.syncPools[k], a[1])
+			return nil
+		},
 		"(*sync.Mutex).Lock":    func(in *Interp, fn *ssa.Function, a []Value) Value { in.inOnce++; return nil },
 		"(*sync.Mutex).Unlock":  func(in *Interp, fn *ssa.Function, a []Value) Value { in.inOnce--; return nil },
 		"(*sync.RWMutex).Lock":  func(in *Interp, fn *ssa.Function, a []Value) Value { in.inOnce++; return nil },
